@@ -511,7 +511,7 @@ def slice_dim(f, slicedef, fuzzydim=True):
         else:
             axis = list(var.dimensions).index(dimkey)
             vout = var[...].swapaxes(
-                0, axis)[dmin:dmax:dstride].swapaxes(0, axis)
+                0, axis)[dmin:dmax:dstride].swapaxes(0, axis).copy()
 
             newlen = vout.shape[axis]
             newdim = outf.createDimension(dimkey, newlen)
